@@ -10,11 +10,13 @@ Rej(clause) == PrintT(<<"REJECT", clause, l>>)
 Check(cond, clause) == IF cond THEN TRUE ELSE Rej(clause)
 
 \* the culture renders ':' or '/' as text beginning with '.' or ',' and that separator follows an optional fraction: not delimited after all
+\* (in offset and duration patterns the negative-only sign "-" prints nothing for non-negative values: it separates nothing)
 SepAmbiguous(e) ==
-  \E i \in 1..(Len(e.tokens) - 1) :
-     /\ e.tokens[i] \in OptFrac
-     /\ \/ e.tokens[i + 1] = ":" /\ Len(e.time_sep) > 0 /\ e.time_sep[1] \in {46, 44}
-        \/ e.tokens[i + 1] = "/" /\ Len(e.date_sep) > 0 /\ e.date_sep[1] \in {46, 44}
+  LET toks == IF e.type \in {"Offset", "Duration"} THEN SelectSeq(e.tokens, LAMBDA t : t # "-") ELSE e.tokens IN
+  \E i \in 1..(Len(toks) - 1) :
+     /\ toks[i] \in OptFrac
+     /\ \/ toks[i + 1] = ":" /\ Len(e.time_sep) > 0 /\ e.time_sep[1] \in {46, 44}
+        \/ toks[i + 1] = "/" /\ Len(e.date_sep) > 0 /\ e.date_sep[1] \in {46, 44}
 
 \* does the law "parse(format(v)) = v" apply to this event?
 Applies(e) ==
